@@ -28,4 +28,18 @@ TEXT = {
         design_ref="DESIGN.md section 3, C08",
         level_note=NOTE_COMMON,
         technique="runtime oracle (extended-precision identities) over generated inputs, ASan+UBSan build"),
+    "C09": dict(
+        level_text="Exploration by direct calls of TridiagEigen, UpperHessenbergSchur and UpperHessenbergEigen on ~27k (quick) generated matrices per run, sizes 2..64, "
+                   "twelve entry classes incl. defective, companion, repeated, zero and 1e+-150-scaled input, 3 scalar types, under ASan+UBSan; backward-error identities, "
+                   "exact structural conventions (quasi-triangular T, exact zero imaginary parts / adjacent exact conjugate pairs) and trace power sums judged in long double.",
+        design_ref="DESIGN.md section 3, C09",
+        level_note=NOTE_COMMON + " A std::runtime_error on a finite input is reported (the reference solver converges on every generated class).",
+        technique="runtime oracle (extended-precision identities + exact structure tests) over generated inputs, ASan+UBSan build"),
+    "C10": dict(
+        level_text="Exploration by direct calls of BKLDLT (and the dense wrappers built on it) on ~24k (quick) scenarios per run: sizes 1..80, eight matrix classes, shifts equal/near "
+                   "diagonal entries, every triangle x storage order x plain/Map/block/expression presentation with the unused triangle set to NaN, structurally singular inputs and "
+                   "object reuse, 4 scalar types incl. complex Hermitian, under ASan+UBSan; residuals judged in long double.",
+        design_ref="DESIGN.md section 3, C10",
+        level_note=NOTE_COMMON + " Nonsingularity of a generated input is decided by a long-double full-pivoting LU.",
+        technique="runtime oracle (extended-precision residual, status and exception checks, NaN-poisoned unused triangle) over generated inputs, ASan+UBSan build"),
 }
